@@ -318,6 +318,11 @@ def run(tier="quick", seed=0):
     # ---- 1. spec level
     pr.model_check("MCBatch", "MCBatch.cfg", workers=8, deadlock=False, coverage=True)
     pr.model_check("MCBatch", "MCBatchReal.cfg", workers=8, deadlock=False)
+    # unbounded: Spec => [](OkIsIdentity /\ NeverSilent) for ANY N, segmentation and worker count, proved by tlapm on BatchProof.tla;
+    # TLC re-checks the inductive invariant on small constants and that BatchProof refines Batch (gather loop = Finalize)
+    pr.model_check("MCBatchProof", "MCBatchProof.cfg", workers=4, coverage=True)
+    pr.model_check("MCBatchProof", "MCBatchProofFail.cfg", workers=4)
+    pr.prove("BatchProof")
 
     # ---- 2. spec -> code: TLC behaviours replayed with the stand-in kernel
     scripts, npaths = behaviours_from_tlc(pr)
